@@ -206,7 +206,7 @@ def anova_repeated_export(shape, how, ykind, seed, order, aseed):
         if not ok:
             return FAIL(f'export #{call} (r={r}) of the same ANOVA object differs from the fitted model: max dev '
                         f'{np.abs(got - T).max():.3e} (f0 = {f0:.6g})')
-        if abs(A.f0 - f0) > 64 * np.finfo(float).eps * max(1.0, abs(f0), np.abs(y).max()):
+        if not abs(A.f0 - f0) <= 64 * np.finfo(float).eps * max(1.0, abs(f0), np.abs(y).max()):
             return FAIL(f'constant term drifted after export #{call}: {A.f0} vs {f0}')
         A(I[:1])
     return PASS if np.abs(y).max() > 0 else TRIVIAL('zero data')
@@ -258,7 +258,7 @@ def anova_noise(shape, how, ykind, seed, r, noise, aseed, rel):
     bound = gen.dense([np.abs(G) + 8. * eff * M for G, M in zip(Pc, Mk)]) - absP
     dev = np.abs(gen.dense(Y) - T)
     slack = 64. * EPS * (absP + bound + _scale(y, f0, f1)) * (1 + len(shape))
-    if np.any(dev > bound + slack):
+    if not np.all(dev <= bound + slack):
         j = np.unravel_index(np.argmax(dev - bound), dev.shape)
         return FAIL(f'deviation {dev[j]:.3e} exceeds the noise bound {bound[j]:.3e} at {list(map(int, j))} (noise {eff})')
     if not any(M.any() for M in Mk):
@@ -284,7 +284,7 @@ def anova_additive(shape, how, seed, r, order, aseed):
             return FAIL(f'additive function not reproduced: max dev {np.abs(got - T).max():.3e}')
         return PASS
     err = np.linalg.norm(got - T)
-    if err > 1e-6 * np.linalg.norm(T):
+    if not err <= 1e-6 * np.linalg.norm(T):
         return FAIL(f'order 2: additive function not reproduced: rel. error {err / np.linalg.norm(T):.3e}')
     return check(_ranks_ok(Y, r, False), f'ranks {[G.shape[2] for G in Y[:-1]]} > {r}')
 
@@ -313,12 +313,12 @@ def anova_order2(shape, how, ykind, seed, r, aseed):
     if nrm == 0:
         return SKIP('zero model (C11 family)')
     err = np.linalg.norm(got - T)
-    if err > 1e-6 * nrm:
+    if not err <= 1e-6 * nrm:
         return FAIL(f'value != f0 + sum f1 + sum f2: rel. error {err / nrm:.3e}')
     if d == 2 and how == 'full':
         D = np.zeros(shape)
         D[tuple(P.T)] = y
-        if np.linalg.norm(got - D) > 1e-6 * np.linalg.norm(D):
+        if not np.linalg.norm(got - D) <= 1e-6 * np.linalg.norm(D):
             return FAIL('d = 2, full grid: the second-order model does not reproduce the data')
     return PASS
 
@@ -365,10 +365,10 @@ def anova_func_model(d, n, m, a, b, lamb, seed, ykind):
     tolc = 256. * EPS * cond * sc
     if len(cfs) != d + 1 or any(len(cfs[k + 1]) != n - 1 for k in range(d)):
         return FAIL(f'coeffs layout: {[np.size(c) for c in cfs]}')
-    if abs(cfs[0] - const) > tolc:
+    if not abs(cfs[0] - const) <= tolc:
         return FAIL(f'constant {cfs[0]!r} != own fit {const!r} (tol {tolc:.2e})')
     for k in range(d):
-        if np.abs(np.asarray(cfs[k + 1]) - own[k]).max() > tolc:
+        if not np.abs(np.asarray(cfs[k + 1]) - own[k]).max() <= tolc:
             return FAIL(f'mode {k}: coefficients differ from the own ridge fit by {np.abs(cfs[k + 1] - own[k]).max():.3e} > {tolc:.2e}')
     A = O.cores(e=None)
     msg = gen.wf(A, [n] * d)
@@ -380,7 +380,7 @@ def anova_func_model(d, n, m, a, b, lamb, seed, ykind):
     kap = max(abs(a), abs(b)) / (b - a)
     tol = 64. * EPS * d * n * n * (1. + kap) * sc
     got = teneva.func_get(Xt, A, a, b)
-    if np.abs(got - model).max() > tol:
+    if not np.abs(got - model).max() <= tol:
         return FAIL(f'interpolant != fitted constant + sum of fitted expansions: {np.abs(got - model).max():.3e} > {tol:.2e}')
     # dense check of the coefficient tensor: constant at index 0, c_k[p] at p e_k, zero elsewhere
     D = gen.dense(A)
@@ -391,14 +391,14 @@ def anova_func_model(d, n, m, a, b, lamb, seed, ykind):
             idx = [0] * d
             idx[k] = p
             W[tuple(idx)] = cfs[k + 1][p - 1]
-    if np.abs(D - W).max() > 64. * EPS * sc * d:
+    if not np.abs(D - W).max() <= 64. * EPS * sc * d:
         return FAIL(f'coefficient tensor differs from the delta layout by {np.abs(D - W).max():.3e}')
     if np.linalg.norm(W) > 0:
         B = teneva.anova_func(X.copy(), y.copy(), n, a, b, lamb)
         msg = gen.wf(B, [n] * d)
         if msg:
             return FAIL('anova_func not well-formed: ' + msg)
-        if np.linalg.norm(gen.dense(B) - W) > 1e-6 * np.linalg.norm(W):
+        if not np.linalg.norm(gen.dense(B) - W) <= 1e-6 * np.linalg.norm(W):
             return FAIL(f'anova_func(e=1e-8) differs from the model: {np.linalg.norm(gen.dense(B) - W) / np.linalg.norm(W):.3e}')
     return PASS
 
